@@ -169,7 +169,7 @@ def valid_grid(npts, g):
 
 
 def gen_ckpt_cases(chk, rng):
-    n = 70 if chk.tier == 'quick' else 500
+    n = 70 if chk.tier == 'quick' else 2000
     cases = []
     time_sets = [[0], [5], [5, 40], [40, 100, 5], [999999, 5, 100], [100, 999999, 40, 5], [7, 123456, 99999, 100000]]
     big_sets = [[999999, 1000000], [5, 1000000, 40], [2000000, 10000000, 999998]]
@@ -465,7 +465,7 @@ def const_case(c):
 
 
 def gen_const_cases(chk, rng):
-    n = 120 if chk.tier == 'quick' else 1500
+    n = 120 if chk.tier == 'quick' else 4000
     cases = []
     for i in range(n):
         mode = ['literal', 'expr', 'expr', 'object', 'rp', 'object'][i % 6]
@@ -598,7 +598,7 @@ def driver_case(c):
 
 
 def gen_driver_cases(chk, rng):
-    n = 90 if chk.tier == 'quick' else 700
+    n = 90 if chk.tier == 'quick' else 3000
     cases = []
     for i in range(n):
         S = rng.choice([1, 1, 2, 3, 3, 4, 5, 7])
@@ -759,9 +759,8 @@ def check_driver(chk, cases, results):
             chk.violation(key, what + ' | case %r' % (c,), dict(rep, oracle=key))
         if mismatch:
             chk.cov['disagreements_checked'] += 1
-            real = [p for p in problems if p[0] not in (K_FINAL_ROWS, K_RESTART_ROWS)]
             chk.violation('fullSimulation:model-mismatch', mismatch + ' | case %r' % (c,), dict(rep, mismatch=mismatch),
-                          no_input=not real)
+                          no_input=False)
     return model
 
 
@@ -859,7 +858,9 @@ def run():
     nreal = 0
     if chk.tier == 'thorough':
         rcases = [{'kind': 'real', 'nranks': 2, 'S': 2, 'stops': [2, 3], 'iota': 0.0},
-                  {'kind': 'real', 'nranks': 4, 'S': 2, 'stops': [1, 3], 'iota': 0.8}]
+                  {'kind': 'real', 'nranks': 4, 'S': 2, 'stops': [1, 3], 'iota': 0.8},
+                  {'kind': 'real', 'nranks': 3, 'S': 3, 'stops': [2, 4], 'iota': 0.8},
+                  {'kind': 'real', 'nranks': 1, 'S': 1, 'stops': [1, 2, 3], 'iota': 0.0}]
         rres = implrun.run_cases('props.c18', 'real_case', rcases, tmo=840.0, chunk=1)
         for c, r in zip(rcases, rres):
             nreal += 1
@@ -878,7 +879,9 @@ def run():
         'stand-in physics of part (c) is such a function by construction, the true physics is sampled in the thorough tier only',
         'Python str.format "{:06}" and string comparison are modelled by CkNames.v (ck_fmt06, ck_lex_lt) and compared with '
         'Python on every multi-checkpoint case',
-        'constants printer/parser: tested (part b), not modelled in Coq']
+        'constants printer/parser: tested (part b), not modelled in Coq',
+        'dt is a positive integer (Driver.v counts time in steps): with a float dt in the constants file the real driver '
+        'raises IndexError at the first DiagnosticCollector.collect (float array index), so no history exists to compare']
     return chk.finish(
         proof,
         rule='(a) seeded checkpoint cases: npts in [3,8]^4, save grid x load grid over all factorisations of 1..8 ranks, 3 layouts, '
